@@ -1,10 +1,20 @@
 package main
 
 import (
+	"bufio"
+	"bytes"
+	"context"
+	"crypto/sha1"
+	"encoding/hex"
 	"encoding/json"
 	"fmt"
+	"io"
+	"os"
+	"os/exec"
+	"reflect"
 	"strconv"
 	"strings"
+	"sync"
 	"time"
 
 	"flamingo.me/pugtemplate/otto/ast"
@@ -12,23 +22,50 @@ import (
 )
 
 // C15: parser.ParseFile / parser.ParseFunction on arbitrary byte strings.
-// Every parse runs in its own goroutine with recover() and a watchdog; it is run
-// twice and both answers are reported.  The tree is written as the canonical
-// S-expression that coq/Js/Parse.v (dump_prog) and gen/c15.py produce as well.
-type c15Case struct {
+//
+// Every parse runs in its own goroutine with recover() and a watchdog.  The tree is written as the
+// canonical S-expression that coq/Js/Parse.v (dump_prog) and gen/c15.py produce as well, and - for
+// "the same answer every time" - as a fingerprint of the WHOLE tree (every field of every node,
+// positions included, read by reflection), so that two answers can be compared also where the
+// canonical dump only says (other:...).
+//
+// A plain case (no hist, fresh false) is parsed twice in a row in the runner's process, which all plain
+// cases of a run share.  A case with a history is run in processes of its own (this binary re-executed
+// as C15hist): one process parses the steps of the history in order, once each - the case's own input A
+// occurs among them several times, between other inputs that share sub-strings with it - and a second,
+// freshly started process parses A alone.  Nothing another case did can influence these answers, so a
+// replay of the case is self-contained.
+type c15Step struct {
 	Mode   string `json:"mode"`   // file | func
-	Params string `json:"params"` // hex, parameter list of ParseFunction
+	Params string `json:"params"` // hex
 	Src    string `json:"src"`    // hex
-	Bound  int    `json:"bound"`  // watchdog in milliseconds (0: default)
+}
+
+type c15Case struct {
+	Mode   string    `json:"mode"`   // file | func
+	Params string    `json:"params"` // hex, parameter list of ParseFunction
+	Src    string    `json:"src"`    // hex
+	Bound  int       `json:"bound"`  // watchdog in milliseconds (0: default)
+	Hist   []c15Step `json:"hist"`   // the inputs parsed, in this order, in one process of its own (empty: A, A)
+	Fresh  bool      `json:"fresh"`  // processes of its own: one for the history, a fresh one for A alone
+}
+
+type c15StepObs struct {
+	Class string `json:"class"` // ok | err | panic | timeout | crash (the runtime killed the process)
+	Fp    string `json:"fp"`    // fingerprint of the whole tree (class ok)
+	Ms    int64  `json:"ms"`
 }
 
 type c15Obs struct {
-	Class  string `json:"class"`  // ok | err | panic | timeout
-	Dump   string `json:"dump"`   // hex, only for ok
-	Class2 string `json:"class2"` // second run
-	Same   bool   `json:"same"`   // second run gave the same class and the same tree
-	Ms     int64  `json:"ms"`     // slower of the two runs (diagnostic)
-	Panic  string `json:"panic"`  // diagnostic text, never compared
+	Class  string       `json:"class"`  // first parse of A: ok | err | panic | timeout | crash
+	Dump   string       `json:"dump"`   // hex, only for ok
+	Fp     string       `json:"fp"`     // fingerprint of the whole tree of that answer
+	Class2 string       `json:"class2"` // second parse of A
+	Same   bool         `json:"same"`   // every parse of A (in the history and in the fresh process) gave the same class, dump and fingerprint
+	Ms     int64        `json:"ms"`     // slowest parse (diagnostic)
+	Panic  string       `json:"panic"`  // diagnostic text, never compared
+	Steps  []c15StepObs `json:"steps"`  // the answers to the history, in order
+	FreshO *c15StepObs  `json:"fresh"`  // the answer of the freshly started process to A
 }
 
 func init() {
@@ -37,27 +74,63 @@ func init() {
 		if err := json.Unmarshal(in, &cases); err != nil {
 			return nil, err
 		}
-		out := make([]c15Obs, len(cases))
-		for i, c := range cases {
-			out[i] = runC15(c)
+		self, err := os.Executable()
+		if err != nil {
+			return nil, err
 		}
+		out := make([]c15Obs, len(cases))
+		// cases that want processes of their own: a few workers start the children ...
+		var wg sync.WaitGroup
+		jobs := make(chan int)
+		for w := 0; w < 4; w++ {
+			wg.Add(1)
+			go func() {
+				defer wg.Done()
+				for i := range jobs {
+					out[i] = c15Isolated(self, cases[i])
+				}
+			}()
+		}
+		go func() {
+			for i, c := range cases {
+				if c.Fresh {
+					jobs <- i
+				}
+			}
+			close(jobs)
+		}()
+		// ... while the plain cases run one after the other in this process
+		for i, c := range cases {
+			if !c.Fresh {
+				out[i] = runC15(c)
+			}
+		}
+		wg.Wait()
 		return out, nil
+	}
+	runners["C15hist"] = func(in json.RawMessage) (interface{}, error) {
+		var c c15Case
+		if err := json.Unmarshal(in, &c); err != nil {
+			return nil, err
+		}
+		return runC15(c), nil
 	}
 }
 
 type c15Res struct {
 	class string
 	dump  string
+	fp    string
 	msg   string
 }
 
-func c15Once(c c15Case, src, params string) (r c15Res) {
+func c15Once(mode, src, params string) (r c15Res) {
 	defer func() {
 		if p := recover(); p != nil {
 			r = c15Res{class: "panic", msg: fmt.Sprint(p)}
 		}
 	}()
-	switch c.Mode {
+	switch mode {
 	case "func":
 		fn, err := parser.ParseFunction(params, src)
 		if err != nil {
@@ -67,7 +140,7 @@ func c15Once(c c15Case, src, params string) (r c15Res) {
 		b.WriteString("(prog (expr ")
 		c15Expr(&b, fn)
 		b.WriteString("))")
-		return c15Res{class: "ok", dump: b.String()}
+		return c15Res{class: "ok", dump: b.String(), fp: c15Fingerprint(fn)}
 	default:
 		prog, err := parser.ParseFile(nil, "", src, 0)
 		if err != nil {
@@ -80,14 +153,14 @@ func c15Once(c c15Case, src, params string) (r c15Res) {
 			c15Stmt(&b, s)
 		}
 		b.WriteString(")")
-		return c15Res{class: "ok", dump: b.String()}
+		return c15Res{class: "ok", dump: b.String(), fp: c15Fingerprint(prog)}
 	}
 }
 
-func c15Guarded(c c15Case, src, params string, bound time.Duration) (c15Res, time.Duration) {
+func c15Guarded(mode, src, params string, bound time.Duration) (c15Res, time.Duration) {
 	ch := make(chan c15Res, 1)
 	t0 := time.Now()
-	go func() { ch <- c15Once(c, src, params) }()
+	go func() { ch <- c15Once(mode, src, params) }()
 	select {
 	case r := <-ch:
 		return r, time.Since(t0)
@@ -96,26 +169,189 @@ func c15Guarded(c c15Case, src, params string, bound time.Duration) (c15Res, tim
 	}
 }
 
+func c15Bound(c c15Case, n int) time.Duration {
+	if c.Bound != 0 {
+		return time.Duration(c.Bound) * time.Millisecond
+	}
+	// generous: the error paths of the parser are quadratic (about 0.5 s for 10^4 bytes;
+	// chains of equal labels are cubic: 12 s for 6000 bytes); slowness alone must not alarm
+	x := float64(n) / 1e4
+	return 120*time.Second + time.Duration(120*x*x*float64(time.Second))
+}
+
+// runC15 parses the history of the case (A, A when none is given) in this process, in order, once each.
 func runC15(c c15Case) c15Obs {
-	src, params := unhx(c.Src), unhx(c.Params)
-	bound := time.Duration(c.Bound) * time.Millisecond
-	if bound == 0 {
-		// generous: the error paths of the parser are quadratic (about 0.5 s for 10^4 bytes;
-		// chains of equal labels are cubic: 12 s for 6000 bytes); slowness alone must not alarm
-		n := float64(len(src)) / 1e4
-		bound = 120*time.Second + time.Duration(120*n*n*float64(time.Second))
+	hist := c.Hist
+	if len(hist) == 0 {
+		hist = []c15Step{{c.Mode, c.Params, c.Src}, {c.Mode, c.Params, c.Src}}
 	}
-	r1, d1 := c15Guarded(c, src, params, bound)
-	if r1.class == "timeout" {
-		// the stuck goroutine keeps running; do not start a second one
-		return c15Obs{Class: "timeout", Class2: "timeout", Ms: d1.Milliseconds()}
+	obs := c15Obs{Same: true, Steps: []c15StepObs{}}
+	seen := 0 // parses of A so far
+	var first c15Res
+	for _, st := range hist {
+		src, params := unhx(st.Src), unhx(st.Params)
+		r, d := c15Guarded(st.Mode, src, params, c15Bound(c, len(src)))
+		obs.Steps = append(obs.Steps, c15StepObs{Class: r.class, Fp: r.fp, Ms: d.Milliseconds()})
+		if d.Milliseconds() > obs.Ms {
+			obs.Ms = d.Milliseconds()
+		}
+		obs.Panic += r.msg
+		if st.Mode == c.Mode && st.Params == c.Params && st.Src == c.Src {
+			switch seen {
+			case 0:
+				first = r
+				obs.Class, obs.Dump, obs.Fp, obs.Class2 = r.class, hx(r.dump), r.fp, r.class
+			case 1:
+				obs.Class2 = r.class
+			}
+			if seen > 0 && (r.class != first.class || r.dump != first.dump || r.fp != first.fp) {
+				obs.Same = false
+			}
+			seen++
+		}
+		if r.class == "timeout" {
+			// the stuck goroutine keeps running; do not start another parse next to it
+			if seen == 0 {
+				obs.Class, obs.Class2 = "timeout", "timeout"
+			}
+			obs.Same = false
+			break
+		}
 	}
-	r2, d2 := c15Guarded(c, src, params, bound)
-	if d2 > d1 {
-		d1 = d2
+	if seen == 0 && obs.Class == "" {
+		obs.Class, obs.Class2, obs.Same = "err", "err", false // a history that never parses A is a mistake of the generator
+		obs.Panic += "history without the case's own input"
 	}
-	return c15Obs{Class: r1.class, Dump: hx(r1.dump), Class2: r2.class,
-		Same: r1.class == r2.class && r1.dump == r2.dump, Ms: d1.Milliseconds(), Panic: r1.msg + r2.msg}
+	return obs
+}
+
+// c15Child runs one case in a process of its own (this binary, runner C15hist).
+func c15Child(self string, c c15Case) c15Obs {
+	c.Fresh = false
+	in, err := json.Marshal(c)
+	if err != nil {
+		panic(err)
+	}
+	n := 0
+	for _, st := range c.Hist {
+		n += len(st.Src) / 2
+	}
+	ctx, cancel := context.WithTimeout(context.Background(), c15Bound(c, n)+time.Minute) // a hung child ends as a crash
+	defer cancel()
+	cmd := exec.CommandContext(ctx, self, "C15hist")
+	cmd.Stdin = bytes.NewReader(in)
+	var stderr bytes.Buffer
+	cmd.Stderr = &stderr
+	out, err := cmd.Output()
+	var obs c15Obs
+	if err == nil {
+		err = json.Unmarshal(out, &obs)
+	}
+	if err != nil {
+		// the Go runtime killed the process (stack exhaustion, ...): nothing a recover() can catch
+		msg := stderr.String()
+		if len(msg) > 600 {
+			msg = msg[:600]
+		}
+		obs = c15Obs{Class: "crash", Class2: "crash", Panic: fmt.Sprint(err) + ": " + msg, Steps: []c15StepObs{}}
+		for range c.Hist {
+			obs.Steps = append(obs.Steps, c15StepObs{Class: "crash"})
+		}
+	}
+	return obs
+}
+
+// c15Isolated: one process for the history of the case, one more - freshly started - that parses A alone.
+func c15Isolated(self string, c c15Case) c15Obs {
+	if len(c.Hist) == 0 {
+		c.Hist = []c15Step{{c.Mode, c.Params, c.Src}, {c.Mode, c.Params, c.Src}}
+	}
+	obs := c15Child(self, c)
+	alone := c
+	alone.Hist = []c15Step{{c.Mode, c.Params, c.Src}}
+	f := c15Child(self, alone)
+	fo := c15StepObs{Class: f.Class, Fp: f.Fp, Ms: f.Ms}
+	obs.FreshO = &fo
+	if f.Class != obs.Class || f.Dump != obs.Dump || f.Fp != obs.Fp {
+		obs.Same = false
+	}
+	obs.Panic += f.Panic
+	return obs
+}
+
+// c15Fingerprint: SHA-1 (first 8 bytes, hex) over every field of every node of the tree, read by reflection
+// in declaration order: node types, literals, values, operators, positions.  Not walked: the *file.File of a
+// program and comment maps (keyed by node addresses).  A node reached a second time (a function literal is
+// also listed in the declarations of its scope) is written as a back reference, so the text does not depend
+// on addresses.
+func c15Fingerprint(root interface{}) string {
+	h := sha1.New()
+	w := bufio.NewWriter(h)
+	seen := map[uintptr]int{}
+	c15Walk(w, reflect.ValueOf(root), seen)
+	w.Flush()
+	return hex.EncodeToString(h.Sum(nil)[:8])
+}
+
+func c15Walk(w io.Writer, v reflect.Value, seen map[uintptr]int) {
+	switch v.Kind() {
+	case reflect.Invalid:
+		io.WriteString(w, "nil")
+	case reflect.Interface:
+		if v.IsNil() {
+			io.WriteString(w, "nil")
+			return
+		}
+		c15Walk(w, v.Elem(), seen)
+	case reflect.Ptr:
+		if v.IsNil() {
+			io.WriteString(w, "nil")
+			return
+		}
+		if v.Type().String() == "*file.File" {
+			return
+		}
+		if k, ok := seen[v.Pointer()]; ok {
+			io.WriteString(w, "@"+strconv.Itoa(k))
+			return
+		}
+		seen[v.Pointer()] = len(seen)
+		io.WriteString(w, "&")
+		c15Walk(w, v.Elem(), seen)
+	case reflect.Struct:
+		io.WriteString(w, v.Type().String()+"{")
+		for i := 0; i < v.NumField(); i++ {
+			io.WriteString(w, v.Type().Field(i).Name+":")
+			c15Walk(w, v.Field(i), seen)
+			io.WriteString(w, ";")
+		}
+		io.WriteString(w, "}")
+	case reflect.Slice, reflect.Array:
+		if v.Kind() == reflect.Slice && v.IsNil() {
+			io.WriteString(w, "[]") // a nil list and an empty list are the same answer
+			return
+		}
+		io.WriteString(w, "[")
+		for i := 0; i < v.Len(); i++ {
+			c15Walk(w, v.Index(i), seen)
+			io.WriteString(w, ",")
+		}
+		io.WriteString(w, "]")
+	case reflect.Map:
+		io.WriteString(w, "map") // comment maps only (empty in mode 0)
+	case reflect.String:
+		io.WriteString(w, strconv.Quote(v.String()))
+	case reflect.Bool:
+		io.WriteString(w, strconv.FormatBool(v.Bool()))
+	case reflect.Int, reflect.Int8, reflect.Int16, reflect.Int32, reflect.Int64:
+		io.WriteString(w, v.Type().String()+strconv.FormatInt(v.Int(), 10))
+	case reflect.Uint, reflect.Uint8, reflect.Uint16, reflect.Uint32, reflect.Uint64, reflect.Uintptr:
+		io.WriteString(w, v.Type().String()+strconv.FormatUint(v.Uint(), 10))
+	case reflect.Float32, reflect.Float64:
+		io.WriteString(w, "f"+strconv.FormatFloat(v.Float(), 'g', -1, 64))
+	default:
+		io.WriteString(w, "?"+v.Kind().String())
+	}
 }
 
 func c15List(b *strings.Builder, l []ast.Expression) {
